@@ -374,7 +374,7 @@ func init() {
 		Stub: []string{"clock: testing/synctest fake clock, advanced only by the scheduler", "thread scheduler (vacuum goroutine self-registers at its first hook; quiescence via synctest.Wait)"},
 	})
 	register(&PropDef{
-		ID: "C18", Quick: 3000, Thorough: 60000, Level: "exploration", NoMinimise: true,
+		ID: "C18", Quick: 2200, Thorough: 60000, Level: "exploration", NoMinimise: true,
 		Rule: "race mode: the simulator is built with -race and the baton is passed through raw pipe system calls from //go:norace functions, so the detector sees no happens-before edge between simulated threads except the library's own synchronisation; 3-6 threads (writers inserting across a block boundary, updating, merging, deleting; readers with point reads, filtered Range, aggregates, key lookups; snapshots; restores into other collections; index and trigger creation/drop) run under a serialised, recorded schedule; oracles: race detector reports whose two accesses lie in the library or its data-structure dependencies (signature = unordered pair of innermost such frames), deadlock (no thread enabled given the real latch words), hang inside package sync, panics; non-trivial = at least one scheduling decision with more than one enabled thread; distinct = distinct interleaving signature",
 		Gen:  func(seed uint64, run int, tier string) *Case { return genRace(seed, run) },
 		Exec: runRace,
